@@ -181,13 +181,14 @@ def job_api(j):
                                             detail=dict(sensor=sid, cause=cause, fill=k, model=cfg['tag'], rated=cfg['power'])))
     # (the last pass repeats one fill with the library's logging at its default level instead of DEBUG)
     for k in list(range(FILLS)) + (list(range(100, 116)) if cfg.get('small_pairs') else []) + \
-            ['default-logging', 'overlapped', 'overlapped+ka', 'second-poll', 'second-poll+ka']:
+            ['default-logging', 'overlapped', 'overlapped+ka', 'second-poll', 'second-poll+ka'] + \
+            ([f'cut@{i}:{hd}' for i in range(8) for hd in ((9, 60) if i == 0 else (60,))] if fam != 'ES' else []):
         world.reset()
         world.set_debug_logging(k != 'default-logging')
         mode = k if isinstance(k, str) else ''
         if isinstance(k, str):
             k = 2
-        r = make_rig(cfg, transport, fill=api_fill(k, seed), ka=mode.endswith('+ka'))
+        r = make_rig(cfg, transport, fill=api_fill(k, seed), ka=mode.endswith('+ka'), R=1 if mode.startswith('cut@') else 0)
         inv = r.inv
         if fam == 'ES':
             f = api_fill(k, seed)
@@ -206,6 +207,11 @@ def job_api(j):
             old_fill = r.dev.rf.fill
             r.dev.rf.fill = lambda a, f=old_fill, lo=lo, hi=hi: f(a) if lo <= a <= hi else (f(a) ^ 0x0155) & 0xFFFF
         l0 = len(r.dev.log)
+        if mode.startswith('cut@'):
+            # only the first bytes of the answer to the i-th request of the poll arrive (the rest is lost); the request is
+            # transmitted again and answered in full: the values are the reading of the answer that was accepted
+            ci, hd = mode[4:].split(':')
+            r.dev.head_only_at = {l0 + int(ci): int(hd)}
         if mode.startswith('overlapped'):
             # the poll runs while other calls on the same object are pending / queued (single reads of other registers)
             import asyncio
@@ -253,7 +259,8 @@ def job_api(j):
             df = compare(s, got, ref)
             if df:
                 bad(f'api:documented-reading/{fam}/{tname(s)}' + ('/overlapping-calls' if mode.startswith('overlapped') else
-                                                                   '/second-poll-after-other-blocks-changed' if mode.startswith('second') else ''),
+                                                                   '/second-poll-after-other-blocks-changed' if mode.startswith('second') else
+                                                                   '/after-an-answer-cut-short' if mode.startswith('cut@') else ''),
                     s.id_, f'{s.id_} @{s.offset} = {own.hex()}: {df}' + (f' ({mode})' if mode else ''), k)
     world.set_debug_logging(True)
     # ids that two sensors of the model share (the result has one slot): WHICH of them fills the slot is settled on
